@@ -327,3 +327,54 @@ impl Metrics {
         self.0.remembered_gcs.update(|c| c + count);
     }
 }
+
+// Read-only verification hooks (cfg(gc_arena_verif)); never compiled in normal builds.
+#[cfg(gc_arena_verif)]
+pub mod verif {
+    /// A read-only copy of every `MetricsInner` field.
+    #[derive(Debug, Clone, Copy, PartialEq)]
+    pub struct MetricsSnap {
+        pub pacing: super::Pacing,
+        pub total_gcs: usize,
+        pub wakeup_amount: f64,
+        pub artificial_debt: f64,
+        pub allocated_gcs: usize,
+        pub dropped_gcs: usize,
+        pub freed_gcs: usize,
+        pub marked_gcs: usize,
+        pub traced_gcs: usize,
+        pub remembered_gcs: usize,
+    }
+}
+
+#[cfg(gc_arena_verif)]
+impl PartialEq for Pacing {
+    fn eq(&self, o: &Self) -> bool {
+        self.sleep_factor == o.sleep_factor
+            && self.min_sleep == o.min_sleep
+            && self.mark_factor == o.mark_factor
+            && self.trace_factor == o.trace_factor
+            && self.keep_factor == o.keep_factor
+            && self.drop_factor == o.drop_factor
+            && self.free_factor == o.free_factor
+    }
+}
+
+#[cfg(gc_arena_verif)]
+impl Metrics {
+    /// Read-only snapshot of the metrics cells (verification builds only).
+    pub fn verif_snapshot(&self) -> verif::MetricsSnap {
+        verif::MetricsSnap {
+            pacing: self.0.pacing.get(),
+            total_gcs: self.0.total_gcs.get(),
+            wakeup_amount: self.0.wakeup_amount.get(),
+            artificial_debt: self.0.artificial_debt.get(),
+            allocated_gcs: self.0.allocated_gcs.get(),
+            dropped_gcs: self.0.dropped_gcs.get(),
+            freed_gcs: self.0.freed_gcs.get(),
+            marked_gcs: self.0.marked_gcs.get(),
+            traced_gcs: self.0.traced_gcs.get(),
+            remembered_gcs: self.0.remembered_gcs.get(),
+        }
+    }
+}
